@@ -6,14 +6,14 @@ import YashModel.Kernel.LsLemmas
 namespace YashModel.Kernel
 
 /-- ★ `opendir` + `readdir` to the end + `closedir` (F14's statement): a listing that succeeds names exactly
-    the entries of the directory the path resolves to — every name bound directly below it, nothing else (no
+    the entries of the directory the path resolves to — every name bound directly below it, nothing else, each name once (no
     entry of a subdirectory, no `.`/`..` pseudo-entries to filter) —; it needs a free descriptor while it runs
     (EMFILE before any path error when the table is full) and leaves none behind: the state after the
     operation, descriptor table included, is the state before, whether it succeeded or failed. -/
 theorem ls_lists_exactly_the_children (k : K) (comps : List String) :
     (∀ names, listDir k comps = .ok names →
       ∃ p, resolve k.tree k.cwd comps = .ok p ∧ existing k.tree p = .dir ∧
-        ∀ name, name ∈ names ↔ lookup k.tree (p ++ [name]) ≠ none) ∧
+        (∀ name, name ∈ names ↔ lookup k.tree (p ++ [name]) ≠ none) ∧ names.Nodup) ∧
     (allocFd k 0 = none → listDir k comps = .error .EMFILE) ∧
     (step k (.ls comps)).1 = k := by
   refine ⟨?_, ?_, ?_⟩
@@ -29,7 +29,7 @@ theorem ls_lists_exactly_the_children (k : K) (comps : List String) :
         · simp at h
         · rename_i hd
           injection h with h; subst h
-          exact ⟨p, hr, hd, fun name => by rw [mem_children, lookup_ne_none_iff]⟩
+          exact ⟨p, hr, hd, fun name => by rw [mem_children, lookup_ne_none_iff], by unfold children; exact nodup_dedup _⟩
   · intro h; simp [listDir, h]
   · simp only [step]
     split
